@@ -125,7 +125,7 @@ class HRLexer(Lexer):
             Rule(r"(-?\d+\.\d+)", self.real_constant, True),# decimals
             Rule(r"(-?\d+_\d+)", self.bv_constant, True),# bv
             Rule(r"(-?\d+)", self.int_constant, True),# integer literals
-            Rule(r"\"(.*?)\"", self.string_constant, True), # String Constant
+            Rule(r"\"((?:[^\"]|\"\")*)\"", self.string_constant, True), # String Constant
             Rule(r"BV\{(\d+)\}", self.bv_type, True),# BV Type
             Rule(r"(Array\{)", OpenArrayTypeTok(), False),# Array Type
             Rule(r"(&)", InfixOpAdapter(self.AndOrBVAnd, 40), False),# conjunction
@@ -220,7 +220,8 @@ class HRLexer(Lexer):
         return Constant(self.mgr.Int(int(read)))
 
     def string_constant(self, read):
-        return Constant(self.mgr.String(read))
+        # A double quote inside a string constant is printed doubled
+        return Constant(self.mgr.String(read.replace('""', '"')))
 
     def identifier(self, read):
         res = self._identifier_map.get(read, None)
